@@ -97,6 +97,15 @@ var hostileTemplates = []func(t *rapid.T) string{
 	func(t *rapid.T) string { return "a.b.c.d.e.f.g = a.b.c.d.e.f.g.h.i.j()" + strings.Repeat(":m()", 50) },
 	func(t *rapid.T) string { return "local self = self function self:self() return self.self:self() end" },
 	func(t *rapid.T) string { return "_G._G._G.x = _G _G = _G._G print(_G.x._G)" },
+	// the input ends inside a token: every multi-character token form cut short at the end of the file
+	func(t *rapid.T) string {
+		head := rapid.SampledFrom([]string{"x = ", "local x = 1\nx = ", "f(", "t = { ", "", "return "}).Draw(t, "eofHead")
+		tail := rapid.SampledFrom([]string{"[=", "[==", "[===", "[=[", "[==[a]=", "[==[a]", "--[=", "--[==", "--[=[", "--[==[a]=", "--", "-",
+			"0x", "0x.", "0x1p", "0x1p-", "1e", "1e+", "1.", "1..", ".", "..", "...", "3LL", "3UL", "3U", "0xffULL",
+			"\"", "'", "\"\\", "'\\", "\"\\x", "\"\\x1", "\"\\u", "\"\\u{", "\"\\u{1", "\"\\1", "\"\\12", "\"\\z", "\"\\z  \n  ", "\"\\\r",
+			"::", "::a", "::a:", "~", "~=", "<", "<<", ">", ">>", "/", "//", "=", "==", ":", "a.", "a:", "a:b", "a[", "a[[", "a[=", "#", "not", "function", "function(", "function(a,", "function(...", "local function", "local x <", "local x <const", "goto", "for", "for i", "for i =", "for i = 1,", "for k,", "for k, v in"}).Draw(t, "eofTail")
+		return head + tail
+	},
 }
 
 func genC01File(t *rapid.T, idx int) []byte {
@@ -116,6 +125,10 @@ func genC01File(t *rapid.T, idx int) []byte {
 		}
 		lay := luagen.LayoutCfg{Wild: rapid.Bool().Draw(t, "wild"), EOLs: []string{"\n", "\r\n", "\r"}, Comments: true, NonASCII: true, Astral: true, Shebang: true}
 		text, _ = luagen.Render(t, toks, lay)
+		if kind == 2 && len(text) > 0 {
+			// a prefix of the file: the input ends at an arbitrary byte, usually inside a token
+			text = text[:rapid.IntRange(0, len(text)).Draw(t, "cut")]
+		}
 	case kind == 3:
 		cfg := richConfig(t)
 		toks := luagen.Program(t, cfg)
